@@ -480,3 +480,111 @@ Section Composed.
     split; [apply views_agree_implicit|]. intros; repeat split.
   Qed.
 End Composed.
+
+(* ------------------------------------------------------------------ requested scope and granted scope *)
+Lemma subset_incl : forall a b, subset a b = true <-> incl a b.
+Proof.
+  intros a b. unfold subset, incl. rewrite forallb_forall.
+  split; intros H x Hx; apply str_in_In; auto.
+Qed.
+
+(* the granted scope is exactly: requested, and allowed for the client *)
+Theorem filter_scopes_char : forall provider al req x,
+  In x (filter_scopes provider al req) <-> In x req /\ In x (allowed_scopes_of provider al).
+Proof. intros. unfold filter_scopes. rewrite filter_In, str_in_In. tauto. Qed.
+
+Theorem filter_scopes_within : forall provider al req, incl (filter_scopes provider al req) req.
+Proof. intros provider al req x H. apply filter_scopes_char in H. tauto. Qed.
+
+(* requested /\ provider scopes /\ the client's allowed scopes - when the operator allowed only scope values the
+   provider knows (or set nothing for the client) *)
+Theorem filter_scopes_intersection : forall provider al req x,
+  match al with Some a => incl a provider | None => True end ->
+  (In x (filter_scopes provider al req) <->
+   In x req /\ In x provider /\ match al with Some a => In x a | None => True end).
+Proof.
+  intros provider [a|] req x H; rewrite filter_scopes_char; cbn [allowed_scopes_of]; [|tauto].
+  split; [intros [H1 H2]; auto|tauto].
+Qed.
+
+Lemma filter_len : forall (f : pystr -> bool) l, (length (filter f l) <= length l)%nat.
+Proof. intros f l. induction l as [|a l IH]; cbn; [lia|destruct (f a); cbn; lia]. Qed.
+
+(* nothing is dropped exactly when everything requested is allowed: only then do "requested" and "granted" coincide *)
+Theorem filter_scopes_all_or_less : forall provider al req,
+  filter_scopes provider al req = req <-> incl req (allowed_scopes_of provider al).
+Proof.
+  intros provider al req. unfold filter_scopes. generalize (allowed_scopes_of provider al) as A. intros A.
+  induction req as [|x r IH]; cbn [filter]; [split; [intros _ y []|reflexivity]|].
+  destruct (str_in x A) eqn:E.
+  - split.
+    + intros H. injection H as H. apply IH in H. intros y [<-|Hy]; [now apply str_in_In|auto].
+    + intros H. f_equal. apply IH. intros y Hy. apply H. now right.
+  - split.
+    + intros H. exfalso.
+      assert (L : (length (filter (fun s => str_in s A) r) <= length r)%nat) by apply filter_len.
+      rewrite H in L. cbn in L. lia.
+    + intros H. exfalso. assert (In x A) by (apply H; now left). apply str_in_In in H0. congruence.
+Qed.
+
+(* every view of the record the authorization endpoint creates states the granted scope - a function of the
+   requested scope, the provider's scopes and the client's allowed scopes - and nothing outside the request *)
+Theorem scope_views_granted : forall client sub al req nonce now at_life idt_life asrc isrc at_jwt now_op now_rp v l,
+  let s := grant_session client sub al req nonce now at_life idt_life in
+  In v (all_views asrc isrc at_jwt s now_op now_rp) -> v_scope v = Some l ->
+  l = granted_scope al req /\ incl l req
+  /\ (forall x, In x l <-> In x req /\ In x (allowed_scopes_of op_scopes al)).
+Proof.
+  intros client sub al req nonce now at_life idt_life asrc isrc at_jwt now_op now_rp v l s H E.
+  assert (L : l = granted_scope al req).
+  { unfold all_views in H.
+    destruct asrc, isrc, at_jwt; cbn in H;
+      repeat (destruct H as [<-|H]; [cbn in E; congruence|]); contradiction. }
+  subst l. split; [reflexivity|]. split; [apply filter_scopes_within|]. intros x. apply filter_scopes_char.
+Qed.
+
+Theorem scope_views_present : forall asrc isrc s now_op now_rp,
+  v_scope (view_session asrc isrc s) = Some (s_scope s)
+  /\ v_scope (view_rp asrc isrc s now_op now_rp) = Some (s_scope s)
+  /\ v_scope (view_token_response s now_op) = Some (s_scope s)
+  /\ v_scope (view_introspection s) = Some (s_scope s)
+  /\ v_scope (view_jwt_access_token s) = Some (s_scope s).
+Proof. intros. repeat split. Qed.
+
+(* a refresh: refused when the stated scope is not within what the refresh token stands for; otherwise every view of
+   the refreshed tokens states the scope of THIS refresh (the stated one, else the one the token stands for), which
+   is within the granted scope, and the views agree *)
+Theorem refresh_scope_char : forall g stated,
+  match stated with
+  | None => refresh_scope g stated = Some g
+  | Some n => (incl n g -> refresh_scope g stated = Some n) /\ (~ incl n g -> refresh_scope g stated = None)
+  end.
+Proof.
+  intros g [n|]; [|reflexivity]. cbn [refresh_scope]. destruct (subset n g) eqn:E.
+  - split; [reflexivity|]. intros H. exfalso. apply H. now apply subset_incl.
+  - split; [|reflexivity]. intros H. apply subset_incl in H. congruence.
+Qed.
+
+Theorem views_after_scoped_refresh : forall g stated sc s r at_jwt now,
+  refresh_scope g stated = Some sc ->
+  let s' := refresh_session_scoped s r sc in
+  all_agree (all_views SrcToken SrcToken at_jwt s' now now) = true
+  /\ (forall v l, In v (all_views SrcToken SrcToken at_jwt s' now now) -> v_scope v = Some l -> l = sc)
+  /\ incl sc g
+  /\ s_client s' = s_client s /\ s_sub s' = s_sub s /\ s_nonce s' = s_nonce s.
+Proof.
+  intros g stated sc s r at_jwt now H s'.
+  split; [apply views_agree; left; discriminate|].
+  split.
+  { intros v l Hv E. unfold all_views in Hv. destruct r as [[n a] i].
+    destruct at_jwt; cbn in Hv; repeat (destruct Hv as [<-|Hv]; [cbn in E; congruence|]); contradiction. }
+  split.
+  { destruct stated as [n|]; cbn [refresh_scope] in H.
+    - destruct (subset n g) eqn:E; [|discriminate]. injection H as <-. now apply subset_incl.
+    - injection H as <-. apply incl_refl. }
+  destruct r as [[n a] i]. repeat split.
+Qed.
+
+(* the regenerated default of the tree: a request naming a scope value the provider does not know is not refused *)
+Lemma unknown_scopes_dropped : op_deny_unknown_scopes = false.
+Proof. reflexivity. Qed.
